@@ -30,16 +30,27 @@ func mono() int64 { return int64(time.Since(epoch)) }
 
 // one real run of a rate trigger built from api.NewIterationWorker (through the constant
 // trigger's constructor when a distribution is wanted) with a logging rate function
-func oneRun(o *kit.Out, r *kit.Rand) {
+func oneRun(o *kit.Out, r *kit.Rand, forceSaturated bool) {
 	interval := time.Duration(kit.Pick(r, 5, 10, 20, 50, 100, 300)) * time.Millisecond
 	dist := kit.Pick(r, "none", "none", "regular", "random")
 	profile := r.Intn(3)
+	// saturated pool with idle ticks: one worker, bodies of almost half an interval, the
+	// profile asks for 8, 0, 0, 8, 0, 0, ...: a tick of 0 is a request like any other (it
+	// supersedes what is still pending), so nothing may start during the idle intervals
+	saturated := forceSaturated || r.Chance(20)
+	if saturated {
+		interval = time.Duration(kit.Pick(r, 60, 100)) * time.Millisecond
+		dist = "none"
+		profile = 3
+	}
+	var bodyStarts []int64
+	var bsMu sync.Mutex
 	lg := &evalLog{}
 	base := int64(r.Range(0, 30))
 	// a stall of the ticking goroutine (slow rate function, GC pause, starved process): one
 	// evaluation takes longer than a whole number of intervals plus a fraction
 	stallAt, stallFor := int64(-1), time.Duration(0)
-	if r.Chance(35) {
+	if !saturated && r.Chance(35) {
 		stallAt = r.Range(0, 2)
 		stallFor = time.Duration(r.Range(1, 3))*interval + interval*time.Duration(r.Range(20, 80))/100
 		if dist != "none" {
@@ -60,6 +71,10 @@ func oneRun(o *kit.Out, r *kit.Rand) {
 		k := int64(len(lg.times))
 		var v int64
 		switch profile {
+		case 3:
+			if k%3 == 0 {
+				v = 8
+			}
 		case 0:
 			v = base
 		case 1:
@@ -101,11 +116,19 @@ func oneRun(o *kit.Out, r *kit.Rand) {
 	var setupDone atomic.Int64
 	scenario := func(*f1testing.T) f1testing.RunFn {
 		setupDone.Store(mono())
-		return func(*f1testing.T) { started.Add(1) }
+		return func(*f1testing.T) {
+			started.Add(1)
+			if saturated {
+				bsMu.Lock()
+				bodyStarts = append(bodyStarts, mono())
+				bsMu.Unlock()
+				time.Sleep(interval * 45 / 100)
+			}
+		}
 	}
 	// scheduling noise: busy goroutines competing with the ticking goroutine
 	stopNoise := make(chan struct{})
-	if r.Chance(50) {
+	if !saturated && r.Chance(50) {
 		for g := 0; g < runtime.GOMAXPROCS(0); g++ {
 			go func() {
 				for {
@@ -134,8 +157,13 @@ func oneRun(o *kit.Out, r *kit.Rand) {
 	if runFor > 1500*time.Millisecond+2*stallFor {
 		runFor = 1500*time.Millisecond + 2*stallFor
 	}
+	conc := 200
+	if saturated {
+		conc = 1
+		runFor = 7*interval + interval/2
+	}
 	cfg := runkit.Config{Mode: "custom", Scenario: scenario, Ctx: context.Background(),
-		Opts: options.RunOptions{MaxDuration: runFor, Concurrency: 200, IgnoreDropped: true}}
+		Opts: options.RunOptions{MaxDuration: runFor, Concurrency: conc, IgnoreDropped: true}}
 	out := runkit.DoWithTrigger(cfg, trig)
 	close(stopNoise)
 	if out.Err != nil || out.Result == nil {
@@ -155,6 +183,32 @@ func oneRun(o *kit.Out, r *kit.Rand) {
 			o.Fail("first-evaluation-late", fmt.Sprintf("first rate evaluation %s after setup with a tick interval of %s", delay, tickInterval))
 		}
 	}
+	if saturated {
+		slack := int64(interval / 3)
+		if slack > int64(25*time.Millisecond) {
+			slack = int64(25 * time.Millisecond)
+		}
+		bsMu.Lock()
+		late := 0
+		for k := 0; k+1 < len(times); k++ {
+			if values[k] != 0 {
+				continue
+			}
+			for _, b := range bodyStarts {
+				if b > times[k]+slack && b < times[k+1] {
+					late++
+				}
+			}
+		}
+		bsMu.Unlock()
+		o.Count("pool", "saturated, idle ticks")
+		if late > 0 {
+			o.Fail("started-during-zero-tick", fmt.Sprintf("interval %s, one worker, bodies of %s, profile 8,0,0,...: %d iteration(s) started more than %s after a tick that requested 0 and before the next tick (evaluations at %v, body starts at %v)",
+				interval, interval*45/100, late, time.Duration(slack), times, bodyStarts))
+		}
+	} else {
+		o.Count("pool", "plenty of instant workers")
+	}
 	tags := []string{"cadence"}
 	if len(times) >= 3 {
 		tags = append(tags, "nt")
@@ -172,7 +226,8 @@ func TestC09(t *testing.T) {
 	defer o.Close()
 	r := kit.NewRand(kit.Seed() + 9)
 	n := kit.N(14, 120)
+	oneRun(o, r, true)
 	for i := 0; i < n; i++ {
-		oneRun(o, r)
+		oneRun(o, r, false)
 	}
 }
